@@ -39,7 +39,7 @@ func (e edSpec) estimator() (stat.ScalarEstimator, error) {
 // forward-backward (BaumWelchStep, observed through the Baum-Welch hook of a
 // one-step run) against the generic LogPdf of the same model and against the
 // enumeration, over data sets of 1..4 sequences.
-func runBwCase(cs *fw.Case, r *prng.Rand) {
+func runBwCase(cs *fw.Case, r *prng.Rand, mixed bool) {
 	m := r.Range(1, 4)
 	s := genHmmSpec(r, m)
 	s.Elem = "Float64"
@@ -71,9 +71,27 @@ func runBwCase(cs *fw.Case, r *prng.Rand) {
 		}
 	}
 	nseq := r.Range(1, 4)
+	if mixed {
+		nseq = r.Range(2, 4)
+	}
 	seqs := make([][][]float64, nseq) // sequence, position, coordinate
+	first := 0
 	for q := range seqs {
 		n := r.Range(1, 6)
+		if mixed {
+			// records of MIXED lengths, the longest first: the estimator reuses one
+			// alpha/beta buffer per thread for all records, a shorter record sees
+			// what the longer one left behind
+			switch {
+			case q == 0:
+				n = r.Range(3, 6)
+				first = n
+			case q == nseq-1 && r.Chance(0.4):
+				n = 1
+			default:
+				n = r.Range(1, first-1)
+			}
+		}
 		seqs[q] = make([][]float64, n)
 		for k := range seqs[q] {
 			seqs[q][k] = make([]float64, d)
@@ -108,6 +126,8 @@ func runBwCase(cs *fw.Case, r *prng.Rand) {
 	}
 
 	var model0 any
+	var pi1 []float64   // log Pi of the model handed to hook 1 (after the M-step)
+	var tr1 [][]float64 // log Tr of that model
 	reported := math.NaN()
 	calls := 0
 	hook := generic.BaumWelchHook{Value: func(h generic.BasicHmm, i int, likelihood, epsilon float64) {
@@ -122,6 +142,24 @@ func runBwCase(cs *fw.Case, r *prng.Rand) {
 			}
 		case 1:
 			reported = likelihood
+			var g *generic.Hmm
+			switch v := h.(type) {
+			case *vd.Hmm:
+				g = &v.Hmm
+			case *md.Hmm:
+				g = &v.Hmm
+			}
+			if g != nil {
+				pi1 = make([]float64, g.M)
+				tr1 = make([][]float64, g.M)
+				for i := 0; i < g.M; i++ {
+					pi1[i] = g.Pi.At(i).GetFloat64()
+					tr1[i] = make([]float64, g.M)
+					for k := 0; k < g.M; k++ {
+						tr1[i][k] = g.Tr.At(i, k).GetFloat64()
+					}
+				}
+			}
 		}
 	}}
 	pool := threadpool.ThreadPool{}
@@ -197,6 +235,7 @@ func runBwCase(cs *fw.Case, r *prng.Rand) {
 	// generic LogPdf and enumeration of the model seen at hook 0, per sequence
 	sumGeneric, sumEnum, tol := 0.0, 0.0, 0.0
 	judgedEnum := true
+	var ens []*enumeration
 	for q := range seqs {
 		var h *libHmm
 		switch v := model0.(type) {
@@ -232,6 +271,7 @@ func runBwCase(cs *fw.Case, r *prng.Rand) {
 			return
 		}
 		en := enumerate(tb)
+		ens = append(ens, en)
 		sumEnum += en.logL
 		tol += tolLog(en.logL, en.condL, h.n*m*m+m)
 	}
@@ -291,4 +331,96 @@ func runBwCase(cs *fw.Case, r *prng.Rand) {
 	} else {
 		cs.Cover("bw:n=1-with-final-restriction(enumeration not judged)")
 	}
+	// expected counts of the E-step (they need the backward recursion on every
+	// record): the Pi and Tr of the model after the step against the enumeration
+	if judgedEnum && err == nil && pi1 != nil && cs.Violations() == 0 {
+		finite := true
+		for _, en := range ens {
+			finite = finite && !math.IsInf(en.logL, 0) && !math.IsNaN(en.logL)
+		}
+		if finite {
+			judgeCounts(cs, sig, s, ens, pi1, tr1, mixed, wit)
+		}
+	}
+}
+
+// judgeCounts: Pi' proportional to sum_records P(s_0 = i | x), Tr'[i][j]
+// proportional to sum_records sum_k P(s_k = i, s_k+1 = j | x) (the last
+// transition is left out when a final state is set, as the library documents),
+// rows renormalised; rows without expected transitions are not judged.
+func judgeCounts(cs *fw.Case, sig func(what, failure string) string, s *hmmSpec, ens []*enumeration, pi1 []float64, tr1 [][]float64, mixed bool, wit map[string]any) {
+	m := s.M
+	accPi := make([]lse, m)
+	accTr := make([][]lse, m)
+	for i := range accTr {
+		accTr[i] = make([]lse, m)
+	}
+	ops := 0
+	for _, en := range ens {
+		n := en.n
+		ops += n*m*m + m
+		last := n - 1 // transitions k -> k+1 for k < last
+		if s.Final != nil {
+			last = n - 2
+		}
+		for code, lp := range en.lp {
+			if math.IsInf(lp, -1) {
+				continue
+			}
+			p := en.path(code)
+			v, a := lp-en.logL, en.abs[code]+en.condL+math.Abs(en.logL)
+			accPi[p[0]].add(v, a)
+			for k := 0; k < last; k++ {
+				accTr[p[k]][p[k+1]].add(v, a)
+			}
+		}
+	}
+	cs.Cover("query:BaumWelchStep-counts")
+	if mixed {
+		cs.Cover("bw:mixed-lengths")
+	}
+	check := func(what string, got []float64, acc []lse) bool {
+		var tot lse
+		vals := make([]float64, len(acc))
+		conds := make([]float64, len(acc))
+		for i := range acc {
+			vals[i], conds[i] = acc[i].result()
+			tot.add(vals[i], conds[i])
+		}
+		z, cz := tot.result()
+		if math.IsInf(z, -1) {
+			cs.Cover("bw:row-without-expected-counts(not judged)")
+			return true
+		}
+		for i := range acc {
+			want := vals[i] - z
+			if math.IsInf(vals[i], -1) {
+				want = negInf
+			}
+			tl := 2 * (tolLog(vals[i], conds[i], ops) + tolLog(z, cz, ops))
+			if !sameLog(got[i], want, tl) {
+				cs.Violation(sig("BaumWelchStep-counts:"+what, "value"),
+					fmt.Sprintf("%s after one Baum-Welch step: entry %d is exp(%v) = %v, expected counts by enumeration over the %d records give exp(%v) = %v (difference %.3g on log scale, tolerance %.3g); record lengths %v",
+						what, i, got[i], math.Exp(got[i]), len(ens), want, math.Exp(want), got[i]-want, tl, lengths(ens)), wit)
+				return false
+			}
+		}
+		return true
+	}
+	if !check("Pi", pi1, accPi) {
+		return
+	}
+	for i := 0; i < m; i++ {
+		if !check("Tr-row", tr1[i], accTr[i]) {
+			return
+		}
+	}
+}
+
+func lengths(ens []*enumeration) []int {
+	r := make([]int, len(ens))
+	for i, en := range ens {
+		r[i] = en.n
+	}
+	return r
 }
